@@ -94,7 +94,11 @@ package abci
 //@   ensures err == nil ==> old(mux.state.blockParams) != nil && (old(mux.state.blockParams.MaxTxSize) == 0 || uint64(len(rawTx)) <= old(mux.state.blockParams.MaxTxSize))
 //@   note nothing is decoded before the size limit is checked; a transaction is returned only if its envelope signature verified under the transaction context and its method is non-empty
 
+//@ ghost var GAuthOK int
+
 //@ func abciMux.processTx
+//@   precall \)\.ExecuteTx$ :: GAuthOK > old(GAuthOK) || old(mux.state.txAuthHandler == nil) || old(ufb("methodCritical", tx.Method))
+//@   note (C09) a transaction reaches its method handler only after the authentication handler (signature-bound nonce check, fee payment, nonce increment - the staking application) ACCEPTED it (counted), unless no handler is configured or the method is one of the critical protocol methods - whatever fee the transaction names, also none (seed C09_k skipped authentication for fee-less transactions: the same signed bytes executed on every delivery)
 //@   assume-pre api\.Context\.TxSigner$
 //@   props C01 C09
 //@   requires mux != nil && mux.state != nil && ctx != nil && tx != nil
@@ -117,6 +121,15 @@ package abci
 //@   requires mux != nil && mux.state != nil
 //@   closure 1 ensures resp.Status == types.ResponseProcessProposal_REJECT && old(resp.Status) != types.ResponseProcessProposal_REJECT ==> GPropResets > old(GPropResets)
 //@   note the deferred handler that turns a panic of the proposal execution into REJECT also resets the proposal state (fresh tree at the committed root, no results): a rejected proposal has been executed PARTLY, and if the same block is decided after all, BeginBlock must not find "same hash, needs execution" over the half-written overlay - it would apply the block's updates twice and leave this replica with another state root (seed C01_i moved the reset into the error branch, which is never taken: every failure of the execution is a panic). The handler's body is executed with an arbitrary state (closure 1 ensures); that a panic of the execution reaches it is Go's defer/recover semantics, not modelled
+
+//@ import "time"
+
+//@ func applicationState.NewContext
+//@   props C01
+//@   bodyonly
+//@   requires s != nil
+//@   precall cometbft/api\.NewContext$ :: (mode == api.ContextDeliverTx || mode == api.ContextBeginBlock || mode == api.ContextEndBlock) ==> sameVal(argAs[time.Time](2), s.blockCtx.Time) && argIs(5, s.proposal.tree) && argIs(6, s.blockCtx)
+//@   note (C01) the context a block is executed in (BeginBlock, DeliverTx, EndBlock) carries the time of THE BLOCK BEING EXECUTED (the block context filled from the block header), the proposal's tree and that block context - nothing node-local: the cached time of the last block this process committed is zero after a restart or a state sync, so a replica using it would compute other results for the next block than the replicas that kept running (seed C01_j dropped the assignment)
 
 //@ func abciMux.DeliverTx
 //@   props C10
